@@ -9,6 +9,10 @@ CHECKS = {
          "TLC explores every acyclic parent function on N<=4 (thorough 5) headers, every batching, every pop order, duplicates, weights and locks, checking canonical-form invariants and refinement to the property spec; every API-level behaviour of that model is executed on the real BlockChain under every relabelling (which steers set.pop order) and must produce an allowed observable state after each call; seeded random runs of the real code (N<=8) are validated as traces by TLC with the pop order inferred.",
          "Trusted: TLC/SANY, CPython; weights positive; bounds N<=4/5 exhaustive, N<=8 traced. The model's Pop order independence (invariant Canonical) justifies replaying with one pop order per relabelling.",
          "DESIGN.md section 4 C15"),
+ "C03": ("executable TLA+ transcription of Core's EvalScript/VerifyScript (byte-level, all opcodes, flags, limits, CHECKSIG/CHECKMULTISIG rules) run by TLC; validated against Core's script_tests.json; bounded exhaustive interpreter exploration, signature-table and spend-shape enumerations by TLC replayed on pycoin; pycoin traceback logs validated by a TLC trace spec",
+         "The consensus rule book is an executable TLA+ specification; TLC (a) runs it on all 1,205 Core vectors (must agree with Core, else the check is broken), (b) explores every machine state x instruction x flag configuration within bounds, every CHECKSIG/CHECKMULTISIG stack over a table of real signature/key classes x flag subsets, every spend shape x permitted flag set, conditional sequences to depth 6, and limit scenarios, and each case is executed on pycoin (verdict and final stack); (c) validates step by step the instruction traces pycoin's VM logs for seeded random scripts.",
+         "Trusted: TLC/SANY, CPython hashlib; Core's vectors as ground truth for the spec; ECDSA and signature-hash primitives inside the signature oracle are pycoin's (C01/C04). Bounds: scripts of <=3 (thorough 4) instructions over a 90-instruction alphabet plus operand-class products, multisig up to 2 (3) keys; longer scripts only via Core vectors, scenarios and traces.",
+         "DESIGN.md section 4 C03, Appendix A"),
 }
 
 NOT_APPLICABLE = {
